@@ -36,6 +36,7 @@ def run(ctx):
     sig(ctx, facts)
     ready(ctx, facts)
     verdict(ctx, facts)
+    index_sync(ctx, facts)
     loud(ctx, facts)
     callers(ctx, facts)
     ctx.assume("tokio::sync::watch delivers the last value sent before a successful changed(); std::sync::Mutex serialises callers")
@@ -231,6 +232,40 @@ def _aliases(b, local):
                 if l is not None:
                     out.add(l)
     return out
+
+
+def index_sync(ctx, facts):
+    """first_batch is the absolute index of batches[0]: every pop_front on `batches` is followed by exactly
+    one `first_batch += 1` before the next pop / return, and first_batch never moves without a pop."""
+    ctx.rule("INDEX-sync: in Batcher, each batches.pop_front() reaches `first_batch += 1` before any other pop_front or return, and no second increment happens without an intervening pop (first_batch stays the absolute index of batches[0])")
+    ws = flow.field_writes(facts, "first_batch", r"Batcher<")
+    ctx.floor("INDEX-sync", "writes to first_batch", len(ws), 1)
+    by_body = {}
+    for (wb, bb, idx, kind, s) in ws:
+        by_body.setdefault(wb.path, (wb, []))[1].append((bb, idx, s))
+        e = flow.expr_of(wb, s["r"]["o"]) if s["r"]["k"] == "use" else ("?",)
+        ok = e[0] == "bin" and e[1] == "Add" and ("const", 1) in (e[2], e[3]) and "first_batch" in flow.field_names_in(e)
+        ctx.ob("INDEX-sync", f"first_batch-write@{wb.root}#{bb}", ok, "first_batch += 1" if ok else f"first_batch := {str(e)[:120]}", site_of(wb, bb, idx))
+    n = 0
+    for b in facts.non_test_bodies():
+        if not b.root.startswith("protocol::context::batcher::Batcher"):
+            continue
+        pops = [bb for bb, t in b.calls() if F.call_matches(t, re.compile(r"VecDeque::<T, A>::(pop_front)$")) and "batches" in flow.field_names_in(flow.expr_of(b, t["args"][0]))]
+        incs = [bb for bb, idx, s in by_body.get(b.path, (b, []))[1]]
+        if not pops and not incs:
+            continue
+        for k, p in enumerate(pops):
+            n += 1
+            reach = flow.reach_avoiding(b, [p], set(incs))
+            bad_pop = [x for x in reach if x in pops]
+            bad_ret = [x for x in reach if b.term(x)["k"] == "ret"]
+            ok = not bad_pop and not bad_ret
+            ctx.ob("INDEX-sync", f"pop=>increment@{b.root}#{k}", ok, "each popped slot advances first_batch" if ok else ("a batch slot is popped and another pop / return is reachable without advancing first_batch: first_batch falls behind the deque and later records are mapped to the wrong batch"), site_of(b, p))
+        for k, i in enumerate(incs):
+            reach = flow.reach_avoiding(b, [i], set(pops))
+            bad = [x for x in reach if x in incs]
+            ctx.ob("INDEX-sync", f"increment=>pop@{b.root}#{k}", not bad, "first_batch advances once per popped slot" if not bad else "first_batch can advance twice without a slot being popped", site_of(b, i))
+    ctx.floor("INDEX-sync", "pop_front sites on batches", n, 1)
 
 
 def loud(ctx, facts):
